@@ -95,3 +95,63 @@ Proof.
   destruct (deriv_state (a_name a)) as [s|]; [|discriminate].
   apply andb_true_iff in H. destruct H as [H _]. apply String.eqb_eq in H. congruence.
 Qed.
+
+(* ---------- C13: the two halves of a component split contain every state of the original ---------- *)
+Lemma decl_eqb_name a b : decl_eqb a b = true -> d_name a = d_name b.
+Proof.
+  unfold decl_eqb. intros H. repeat (apply andb_true_iff in H; destruct H as [H _]).
+  apply String.eqb_eq. exact H.
+Qed.
+
+Lemma dedup_decl_names l n : In n (map d_name (dedup_decl l)) <-> In n (map d_name l).
+Proof.
+  induction l as [|d l IH]; simpl; [tauto|].
+  destruct (existsb (decl_eqb d) l) eqn:E.
+  - rewrite IH. split; [auto|]. intros [<-|H]; [|exact H].
+    apply existsb_exists in E. destruct E as (d' & Hd' & He).
+    rewrite (decl_eqb_name _ _ He). apply in_map. exact Hd'.
+  - simpl. rewrite IH. tauto.
+Qed.
+
+Lemma state_names_of cs n :
+  In n (map d_name (o_states (ode_of cs))) <-> exists c, In c cs /\ In n (map d_name (c_states c)).
+Proof.
+  unfold ode_of; simpl. rewrite dedup_decl_names, in_map_iff. split.
+  - intros (d & <- & Hd). apply in_flat_map in Hd. destruct Hd as (c & Hc & Hd).
+    exists c. split; [exact Hc|]. apply in_map. exact Hd.
+  - intros (c & Hc & Hn). apply in_map_iff in Hn. destruct Hn as (d & <- & Hd).
+    exists d. split; [reflexivity|]. apply in_flat_map. exists c. auto.
+Qed.
+
+(* every state of the full model is a state of C.to_ode() or of (model - C), and conversely
+   (components are keyed by name: [NoDup (map c_name cs)]) *)
+Theorem split_covers_states cs c n :
+  NoDup (map c_name cs) -> In c cs ->
+  (In n (map d_name (o_states (ode_of cs))) <->
+   In n (map d_name (o_states (to_ode c))) \/ In n (map d_name (o_states (minus cs (c_name c))))).
+Proof.
+  intros Hnd Hc. unfold to_ode, minus. rewrite !state_names_of. split.
+  - intros (c' & Hc' & Hn). destruct (String.eqb_spec (c_name c') (c_name c)) as [E|NE].
+    + left. exists c. split; [left; reflexivity|].
+      assert (c' = c); [|subst; exact Hn].
+      clear Hn. induction cs as [|c0 cs IH]; [destruct Hc|].
+      simpl in Hnd. inversion Hnd as [|? ? Hni Hnd']; subst.
+      destruct Hc as [->|Hc], Hc' as [->|Hc']; auto.
+      * exfalso. apply Hni. rewrite <- E. apply in_map. exact Hc'.
+      * exfalso. apply Hni. rewrite E. apply in_map. exact Hc.
+    + right. exists c'. split; [|exact Hn]. apply filter_In. split; [exact Hc'|].
+      apply negb_true_iff. apply String.eqb_neq. exact NE.
+  - intros [(c' & [<-|[]] & Hn)|(c' & Hc' & Hn)].
+    + exists c. auto.
+    + apply filter_In in Hc'. exists c'. tauto.
+Qed.
+
+(* ... and a state of both halves would be declared in two components *)
+Theorem split_halves_disjoint cs c n :
+  In n (map d_name (o_states (to_ode c))) -> In n (map d_name (o_states (minus cs (c_name c)))) ->
+  exists c', In c' cs /\ c_name c' <> c_name c /\ In n (map d_name (c_states c')) /\ In n (map d_name (c_states c)).
+Proof.
+  unfold to_ode, minus. rewrite !state_names_of.
+  intros (c1 & [<-|[]] & H1) (c2 & H2 & Hn2). apply filter_In in H2. destruct H2 as [H2 Hne].
+  exists c2. repeat split; auto. apply negb_true_iff in Hne. apply String.eqb_neq. exact Hne.
+Qed.
